@@ -30,6 +30,7 @@ RULE = (
     "JSON; non-trivial = at least one unsuccessful outcome or a stop()."
 )
 REQUIRED = {
+    "mon:failfast.reads-back-what-was-set": 500,
     "mon:wasSuccessful==no-problem-since-startTestRun": 5000,
     "mon:failfast.shouldStop-at-first-problem-not-earlier": 1000,
     "mon:stop.reaches-every-underlying-result": 300,
